@@ -689,7 +689,7 @@ func judgeFailure(w *World, cfg *WConfig, netc *WNet, nExplicit int, res *KResul
 		case errors.As(err, &ie):
 			res.Probe("idle-timeout")
 			// legitimate only if that endpoint was starved of undamaged datagrams for its idle period
-			idle := time.Duration(min(nzIdle(cfg.IdleMS[0]), nzIdle(cfg.IdleMS[1]))) * time.Millisecond
+			idle := wEffectiveIdle(w, cfg)
 			evidenceWindow := idle
 			if handshake {
 				// Dial/Accept had not returned yet, but the endpoint itself may already have completed the handshake
@@ -746,9 +746,38 @@ func judgeFailure(w *World, cfg *WConfig, netc *WNet, nExplicit int, res *KResul
 		}
 	}
 	if cerr == nil && serr == nil && !handshake {
-		// nothing failed, yet the transfers did not finish within last fault + 2 x idle + 10 s
+		// nothing failed, yet the transfers did not finish within last fault + 2 x idle + 10 s (+ transfer time).
+		// Progress is only owed once faults have stopped: a persistent condition (a path that black-holes every datagram
+		// above a size smaller than QUIC's initial packet size keeps firing until the end) leaves nothing to judge.
+		sched := netc.FaultUntilMS
+		for _, o := range netc.Outages {
+			sched = max(sched, o.ToMS)
+		}
+		if allowance := int64(horizon) - sched*1e6; now-w.lastFaultNS() < allowance {
+			res.Probe("liveness-not-judged-faults-until-the-end")
+			return
+		}
 		res.Fail("transfers did not complete although the path was alive and both connections are up", "horizon %v, last fault at %v", horizon, time.Duration(w.lastFaultNS()))
 	}
+}
+
+// wEffectiveIdle: the idle period both endpoints run with after the handshake: the smaller of the two advertised
+// max_idle_timeout values. A plain client advertises its Config value (default 30 s); a spec-driven client advertises what
+// its spec says (and, since repair 189effd, runs with exactly that, not with its Config): read it off the wire.
+func wEffectiveIdle(w *World, cfg *WConfig) time.Duration {
+	client := nzIdle(cfg.IdleMS[0])
+	if cfg.Client != "" && cfg.Client != "plain" && cfg.Client != "unil" {
+		for _, c := range w.Tap.Conns {
+			if !c.Shadow && c.CH != nil && c.CH.HasTP {
+				client = int64(tapTPUint(c.CH.TPs, 0x01, 0))
+				if client == 0 {
+					client = 1 << 40 // no idle timeout advertised
+				}
+				break
+			}
+		}
+	}
+	return time.Duration(min(client, nzIdle(cfg.IdleMS[1]))) * time.Millisecond
 }
 
 func nzIdle(ms int64) int64 {
